@@ -137,6 +137,11 @@ def gen_workload(rng, profile=None, kinds=('dna', 'rna', 'protein'), weights=Non
         psub = rng.choice([0.02, 0.1, 0.25]); pindel = rng.choice([0.0, 0.01, 0.03])
     elif profile == 'ratio':
         n, L = rng.randint(3, 10), rng.randint(150, 900)
+    elif profile == 'multilong':
+        # many merges of long sequences: several tree-parallel merges above the 256/384-entry buffer sizes at once
+        n, L = rng.randint(6, 28), rng.randint(390, 620)
+        shape = rng.choice(['clusters', 'balanced', 'star'])
+        psub = rng.choice([0.02, 0.1, 0.25]); pindel = rng.choice([0.0, 0.01, 0.03])
     elif profile == 'large':
         # "thousands of sequences / thousands of residues" - few of these, thorough tier only
         if rng.random() < 0.5:
@@ -222,7 +227,7 @@ def gen_world(rng, nthreads=None, preempt=False, calm=False):
         w['p_preempt'] = rng.choice([2000, 20000, 200000, 2000000])
         if rng.random() < 0.45:
             # conflict-directed: extra preemption chances at locations that two virtual threads have touched
-            w['p_shared'] = rng.choice([16, 160, 1600, 8000])
+            w['p_shared'] = rng.choice([160, 1600, 8000, 30000])
         if rng.random() < 0.5:
             # bursts: preemptions biased to land shortly after a task body starts
             w['p_burst'] = rng.choice([3000, 12000, 40000]); w['burst_len'] = rng.choice([16, 200, 3000])
